@@ -74,6 +74,7 @@ class Run:
         self.raised: Optional[Any] = None
         self.env: Dict[str, Any] = {}
         self.loop_depth = 0
+        self.loop_iters: List[Any] = []          # iterable terms of the symbolically executed loops we are inside of
 
     def cond(self) -> T.Term:
         return T.and_(*self.path) if self.path else T.TRUE
@@ -501,9 +502,20 @@ class Interp:
 
     def materialise(self, gen: GenCall) -> list:
         """the values a generator yields, as a list (values yielded inside a symbolically executed loop become Each markers)"""
-        out = []
+        out, where_ = [], []
         depth0 = self.run.loop_depth
-        self.run_generator(gen, lambda v: out.append(Each(v) if self.run.loop_depth > depth0 else v))
+        base = len(self.run.loop_iters)
+
+        def got(v):
+            out.append(Each(v) if self.run.loop_depth > depth0 else v)
+            # (iterables of the enclosing symbolic loops, was a decision taken inside them before this yield - i.e. is the yield conditional on the element)
+            inside = self.run.loop_iters[base:]
+            conditional = bool(inside) and len(self.run.path) > inside[0][1]
+            where_.append((tuple(x[0] for x in inside), conditional))
+        self.run_generator(gen, got)
+        # one yield inside ONE symbolically executed loop: the generator is the comprehension [value for elem in iterable]
+        if len(out) == 1 and isinstance(out[0], Each) and len(where_[0][0]) == 1 and not where_[0][1] and self.run.loop_depth == depth0:
+            return ("comp", "list", to_term(out[0].value), where_[0][0][0], T.TRUE)
         return out
 
     def ex_Yield(self, e):
@@ -576,6 +588,7 @@ class Interp:
             elem = self.pm.iter_element(it, it_t)
             self.assign(target, elem, st, symbolic_elem=True)
         self.run.loop_depth += 1
+        self.run.loop_iters.append((to_term(it) if it is not None else None, len(self.run.path)))
         self.log("loop-enter", st, iter=to_term(it) if it is not None else None)
         try:
             self.exec_block(body)
@@ -583,6 +596,7 @@ class Interp:
             pass
         finally:
             self.run.loop_depth -= 1
+            self.run.loop_iters.pop()
             self.log("loop-exit", st)
 
     def _concrete_seq(self, it: Any) -> Optional[list]:
